@@ -30,7 +30,7 @@ type Env struct {
 }
 
 var stdInitAllow = []string{
-	"io", "bytes", "sort", "unicode/utf8", "encoding/binary",
+	"io", "bytes", "sort", "unicode/utf8", "encoding/binary", "context",
 	"go.uber.org/atomic",
 }
 
